@@ -5,7 +5,8 @@ import json, os
 VERIF = os.path.dirname(os.path.dirname(os.path.abspath(__file__)))
 
 COMMON_NOTE = ("Trusted base: CPython's ast module, xml.etree (to read the .xsd files as data), the receiver typing of "
-               "mxsa/ (see DESIGN.md section 10). The analyser never imports or runs musicxml. ")
+               "mxsa/ and the program normalisation of mxsa/normalise.py (helpers outside reference/functions.json inlined, renamed anchors renamed back, "
+               "canonical statement shapes; DESIGN.md sections 10, 11.7, 11.10). The analyser never imports or runs musicxml. ")
 
 CLAIMED = {
     'C03': dict(
@@ -60,7 +61,8 @@ CLAIMED.update({
               "and which visit every child; (b) the serialiser iterates the ordered view, which is the leaf-order comprehension without re-ordering or dropping filter; "
               "(c) only the four owner functions write a leaf's element list and each store of an element is dominated by a name-equality test whose failing edge raises; "
               "(d) every reaching definition of the leaf that receives a new element is max-filtered; (e) the count-vs-minOccurs/maxOccurs comparisons have the XSD's "
-              "three-cell tables."),
+              "three-cell tables; plus the decision tables of the required-children checkers (R-EXH.validate-started), coherence of memo fields (R-MEMO) and the rule that "
+              "the requirement-flag initialiser does not overwrite decided flags (R-INIT.flags, KF-19)."),
         note=("Does NOT decide that the matcher's leaf selection, choice commitment, duplication and re-homing yield a word of the content model for every history "
               "(run-time behaviour; see C02 under not_applicable). A change that breaks only that part is not detected."),
         design='DESIGN.md section 4, C01'),
@@ -101,7 +103,8 @@ CLAIMED.update({
     'C09': dict(
         category='other',
         technique='consumption / no-swallowing rules over the AST and CFG of the parser, key-space table comparison (Clark notation vs attribute tables)',
-        text=("Decides the no-silent-loss half: the parser reads tag, text, every attribute and every child (unconditional loops on every path; tail is a known finding), "
+        text=("Decides the no-silent-loss half: the parser reads tag, text, every attribute and every child (unconditional loops on every path; tail is a known finding); the text is "
+              "taken exactly when the node has text and is bound on every path; the converter returns the element it constructed; "
               "every except handler retries the same target or re-raises, every partwise tag resolves to its class in the parser's namespace, text is only stripped, the "
               "input is opened in binary mode, and the attribute key spaces (xml:/xlink: references, reserved names) agree with what ElementTree delivers."),
         note="Does not decide that every schema-valid file is accepted (needs the matcher, C02) nor value fidelity. Known findings KF-09/10/11/16/17.",
@@ -168,8 +171,12 @@ CLAIMED.update({
         text=("Decides: only the owner functions write the insertion list, the leaf lists, the two back-pointers and the container root; on every normal path add_child "
               "hands the same child to the matcher, appends it and sets its parent; remove takes it off the list, detaches it from its own leaf, clears both back-pointers; "
               "replace_child swaps list position and leaf slot by identity of the removed child, sets the new child's pointers and clears the removed child's parent; "
-              "duplicated branches are pruned only below a wrapper, only while another occurrence remains; after re-homing every sub-tree of the trial copy is swapped in."),
-        note="Does not decide conservation of children inside the matcher's own restructuring (run-time behaviour). KF-01/KF-02 (reported under C10) are C06 violations too.",
+              "duplicated branches are pruned only below a wrapper, only while another occurrence remains and only when no leaf of the branch holds a child (path search in the "
+              "product of the CFG with the boolean flag variables); after re-homing every sub-tree of the trial copy is swapped in; the trial copies of the intelligent choice "
+              "receive every attached element (collections derived from get_attached_elements() by name filters and list moves only, a copy made per element of a collection "
+              "also gets the rest: R-CONS.rehome); lazily filled instance fields are reset around every write of the primary state they are computed from (R-MEMO)."),
+        note=("Does not decide conservation of children inside the rest of the matcher's restructuring (run-time behaviour). KF-01/KF-02 (reported under C10) are C06 "
+              "violations too. Two genuine defects found by these rules were repaired in /repo (fix 09fcebd, fix 58e301d)."),
         design='DESIGN.md section 4, C06'),
     'C10': dict(
         category='other',
@@ -186,7 +193,8 @@ CLAIMED.update({
         technique='set/reset pairing of matcher flags between the call closures of add_child and remove (write effects + loop extent), guard analysis of the resets',
         text=("Decides for each matcher flag written on the insertion path whether the call closure of remove() contains a reset with the same traversal extent: duplicates "
               "are pruned (guards checked), requirement flags and the immediate choice commitment are reset under no condition beyond the commitment test; force_validate "
-              "has no reset (KF-03) and chosen_child is reset without the path loop the insertion uses (KF-04); only owner functions re-point the container root."),
+              "has no reset (KF-03) and chosen_child is reset without the path loop the insertion uses (KF-04); only owner functions re-point the container root; the flag "
+              "initialiser fills only flags that are still None (R-INIT.flags, KF-19); memo fields are coherent (R-MEMO)."),
         note="Does not decide observational equivalence with a rebuilt twin (run-time behaviour).",
         design='DESIGN.md section 4, C11'),
 })
